@@ -227,6 +227,41 @@ func c10Event(where int, op, next int) {
 	}
 }
 
+// c10MutateType replaces one number that is an object member's value by a string (a type
+// mismatch for the generated destination types), preferring members deep in the document.
+func c10MutateType(g *gen, text string) string {
+	var cands [][2]int
+	inStr := false
+	for i := 0; i < len(text); i++ {
+		ch := text[i]
+		if inStr {
+			if ch == '\\' {
+				i++
+			} else if ch == '"' {
+				inStr = false
+			}
+			continue
+		}
+		if ch == '"' {
+			inStr = true
+			continue
+		}
+		if (ch == '-' || (ch >= '0' && ch <= '9')) && i > 0 && text[i-1] == ':' {
+			j := i + 1
+			for j < len(text) && strings.ContainsRune("0123456789.eE+-", rune(text[j])) {
+				j++
+			}
+			cands = append(cands, [2]int{i, j})
+			i = j - 1
+		}
+	}
+	if len(cands) == 0 {
+		return ""
+	}
+	c := cands[len(cands)-1-g.d(len(cands))%((len(cands)+1)/2)]
+	return text[:c[0]] + `"oops"` + text[c[1]:]
+}
+
 func c10Churn() {
 	runtime.GC()
 	var keep []interface{}
@@ -291,6 +326,13 @@ func runC10(c *Ctx) Result {
 		ti  int
 	}
 	var keep []kept
+	type keptErr struct {
+		err  error
+		want string
+		ti   int
+		in   string
+	}
+	var keepErr []keptErr
 	c10Sentinel(func() {
 		for r := 0; r < nRounds && failSig == ""; r++ {
 			ti := g.d(nTypes)
@@ -350,8 +392,43 @@ func runC10(c *Ctx) Result {
 			}
 			keep = append(keep, kept{p.Interface(), refp.Interface(), ti})
 			c.inc("roundtrips")
+			// a decode that FAILS with a type mismatch somewhere inside the value: the error object
+			// is an output of the decoder too and must survive the events that follow its creation
+			if bad := c10MutateType(g, input); bad != "" {
+				pe := reflect.New(types[ti])
+				c10.active = true
+				err1 := stdAPI.UnmarshalFromString(bad, pe.Interface())
+				c10.active = false
+				pf := reflect.New(types[ti])
+				err2 := stdAPI.UnmarshalFromString(bad, pf.Interface())
+				if err1 != nil && err2 != nil {
+					keepErr = append(keepErr, keptErr{err1, err2.Error(), ti, bad})
+					c.inc("mismatch_decodes")
+				}
+				if (err1 != nil) != (err2 != nil) {
+					fail("decode-error-differs", fmt.Sprintf("Unmarshal(%s) of %s: %v under runtime events, %v without", typeS[ti], clip(bad, 200), err1, err2))
+					break
+				}
+			}
 		}
 	})
+	if failSig == "" && len(keepErr) > 0 {
+		c10Churn()
+		for _, k := range keepErr {
+			msg := func() (s string) {
+				defer func() {
+					if r := recover(); r != nil {
+						s = "PANIC while reading the error: " + fmt.Sprint(r)
+					}
+				}()
+				return k.err.Error()
+			}()
+			if msg != k.want {
+				fail("decode-error-corrupted-after-gc", fmt.Sprintf("the error returned by Unmarshal(%s) of %s reads %q after two collections and allocation churn; the same decode without events: %q", typeS[k.ti], clip(k.in, 160), clip(msg, 200), clip(k.want, 200)))
+				break
+			}
+		}
+	}
 	// values built by the decoder stay intact across collections and reuse of freed memory
 	if failSig == "" {
 		c10Churn()
